@@ -122,7 +122,77 @@ class Module:
         self.classes: Dict[str, ClassInfo] = {}
         self.constants: Dict[str, ast.AST] = {}   # top-level NAME = <expr> (last binding)
         self.all_funcs: List[FuncInfo] = []
+        self.inlined_constants: Dict[str, object] = {}
+        self._inline_private_constants()
         self._index()
+
+    def _inline_private_constants(self):
+        """Module-level `_NAME = <literal>` (str / number / tuple of them / slice, bound once, never rebound with
+        `global`) is substituted at its uses inside functions, so that hoisting a literal into a private constant
+        does not change what the rules see.  Public names (CONCEPT_ROLE, POP, PENMAN_RE ...) are left alone."""
+        counts: Dict[str, int] = {}
+        vals: Dict[str, ast.AST] = {}
+        for st in self.tree.body:
+            tg = None
+            if isinstance(st, ast.Assign) and len(st.targets) == 1 and isinstance(st.targets[0], ast.Name):
+                tg, v = st.targets[0].id, st.value
+            elif isinstance(st, ast.AnnAssign) and isinstance(st.target, ast.Name) and st.value is not None:
+                tg, v = st.target.id, st.value
+            if tg:
+                counts[tg] = counts.get(tg, 0) + 1
+                vals[tg] = v
+        rebound = {n for x in ast.walk(self.tree) if isinstance(x, ast.Global) for n in x.names}
+
+        def simple(v) -> bool:
+            return isinstance(v, (str, int, float, bool, type(None))) or (isinstance(v, tuple) and all(simple(x) for x in v)) \
+                or (isinstance(v, slice) and all(simple(x) for x in (v.start, v.stop, v.step)))
+        table: Dict[str, object] = {}
+        for name, v in vals.items():
+            if not name.startswith('_') or name.startswith('__') or counts[name] != 1 or name in rebound:
+                continue
+            env = dict(table)
+            try:
+                val = fold(v, env)
+            except Exception:      # noqa: not a literal we understand
+                continue
+            if simple(val):
+                table[name] = val
+        if not table:
+            return
+        self.inlined_constants = table
+
+        def lit(val, like):
+            if isinstance(val, tuple):
+                node = ast.Tuple(elts=[lit(x, like) for x in val], ctx=ast.Load())
+            elif isinstance(val, slice):
+                node = ast.Slice(lower=lit(val.start, like) if val.start is not None else None,
+                                 upper=lit(val.stop, like) if val.stop is not None else None,
+                                 step=lit(val.step, like) if val.step is not None else None)
+            elif isinstance(val, (int, float)) and not isinstance(val, bool) and val < 0:
+                node = ast.UnaryOp(op=ast.USub(), operand=ast.Constant(value=-val))
+            else:
+                node = ast.Constant(value=val)
+            for x in ast.walk(node):
+                ast.copy_location(x, like)
+            return node
+
+        class R(ast.NodeTransformer):
+            def visit_Name(self, n):
+                if isinstance(n.ctx, ast.Load) and n.id in table:
+                    return lit(table[n.id], n)
+                return n
+
+            def visit_Subscript(self, n):
+                self.generic_visit(n)
+                return n
+        for st in self.tree.body:
+            if isinstance(st, (ast.FunctionDef, ast.AsyncFunctionDef, ast.ClassDef)):
+                # a local of the same name shadows the constant: skip functions that bind it
+                bound = {x.id for x in ast.walk(st) if isinstance(x, ast.Name) and isinstance(x.ctx, ast.Store)} | \
+                        {a.arg for f in ast.walk(st) if isinstance(f, (ast.FunctionDef, ast.Lambda)) for a in f.args.args}
+                if bound & set(table):
+                    continue
+                R().visit(st)
 
     def _index(self):
         for st in self.tree.body:
@@ -466,6 +536,17 @@ def fold(expr: ast.AST, env: Optional[dict] = None, repo: Optional[Repo] = None,
                    'sorted': sorted, 'frozenset': frozenset, 'int': int, 'bool': bool,
                    'reversed': lambda x: list(reversed(x))}[fn.id](*args)
             return res
+        if isinstance(fn, ast.Name) and fn.id == 'slice':
+            return slice(*[f(a) for a in expr.args])
+        if isinstance(fn, ast.Name) and module is not None and repo is not None and depth < 12:
+            # a call of a small module-level helper of the analysed package with constant arguments
+            r = repo.resolve_name(module, fn.id)
+            if r[0] == 'func':
+                args = [f(a) for a in expr.args]
+                kwargs = {k.arg: f(k.value) for k in expr.keywords if k.arg}
+                res = eval_const_function(repo, r[1], r[2].node, args, kwargs, depth + 1)
+                if res[0] == 'value':
+                    return res[1]
         raise Unfoldable(f'call {norm(fn)}')
     if isinstance(expr, ast.IfExp):
         return f(expr.body) if f(expr.test) else f(expr.orelse)
